@@ -308,3 +308,55 @@ func VH_C17_pending_action_after_transfer_timeout() {
 	vCheckConfigAppends("P5t", true)
 	vReach("end")
 }
+
+//verif:check C15,C16,C08 stubs=env,valuefile,abslog reach=stepped-down,still-leader,end desc="a match-index report that commits a pending configuration while a leadership transfer is waiting for a ready target: whatever that commit does (including the leader stepping down because the committed configuration no longer has it as voter), the rest of the step - quorum check, transfer target selection - runs without a self-inflicted failure, and a transfer still pending has its task unanswered exactly while its timer runs" bounds="n=3 nodes, followers plain voters, the leader's own voter flag/action symbolic, log of 2 entries, pending or committed latest configuration, transfer to a named voter or to any"
+func VH_C15_commit_stepdown_with_transfer() {
+	r, l, _ := vMkLeader(3, 2, false)
+	cfg := r.configs.Latest
+	vAssume(cfg.numVoters() >= 1)
+	for id, nd := range cfg.Nodes {
+		if id != r.nid {
+			vAssume(nd.Voter && nd.Action == None) // the followers are plain voters; the leader's own flags are free
+		}
+	}
+	if vBool("latestCommitted") {
+		r.configs.Committed = cfg
+		vAssume(cfg.Index <= r.commitIndex)
+	} else {
+		r.configs.Committed = vStableConfig("ccfg", 3, 0, 1)
+		vAssume(r.configs.Committed.Index < cfg.Index && cfg.Index > r.commitIndex)
+	}
+	vAssume(vImp(r.configs.IsCommitted(), l.node.Voter))
+	// a transfer was accepted earlier (validateTransfer: at least two voters, a named target is a voter other than the
+	// leader) and no target was ready yet
+	vAssume(cfg.numVoters() >= 2)
+	t := transferLdr{task: newTask()}
+	if vBool("transfer.named") {
+		t.target = vU64("transfer.target")
+		vAssume(t.target != r.nid && cfg.isVoter(t.target))
+	}
+	l.transfer.transferLdr = t
+	l.transfer.term = r.term
+	l.transfer.timer.active = true
+	var st *replicationStatus
+	k := vChoice(2)
+	i := 0
+	for _, repl := range l.repls {
+		if i == k {
+			st = &repl.status
+		}
+		i++
+	}
+	m := vU64("update.match")
+	vAssume(m <= r.lastLogIndex && m >= st.matchIndex)
+	spawned0 := vNumSpawned()
+	l.checkReplUpdates(replUpdate{status: st, update: matchIndex{m}})
+	_ = spawned0
+	if r.state != Leader {
+		vReach("stepped-down")
+	} else {
+		vReach("still-leader")
+	}
+	vAssert(isClosed(t.task.done) == !l.transfer.timer.active, "TS-transfer-task-open-exactly-while-its-timer-runs")
+	vReach("end")
+}
